@@ -45,6 +45,7 @@ func mkOptions() []*pql.CompileOptions {
 		{Parameters: map[string]string{}},
 		{Parameters: map[string]string{"p": "{p:Int32}"}},
 		{Parameters: map[string]string{"p": "$1", "n": "$2"}},
+		{Parameters: map[string]string{"window_ms": "$1", "window_ns": "$2", "window_ds": "$3", "alpha4": "$4", "alpha5": "$5", "alphaY": "$6"}},
 	}
 }
 
@@ -974,6 +975,17 @@ func pairAlphabet(tier string) []call {
 			seen[k] = true
 			out = append(out, call{kind, src, opt})
 		}
+	}
+	// names spelled like generated names; failing lets next to similarly spelled bindings (messages that quote candidates)
+	for _, n := range []string{"__subquery0", "__subquery2"} {
+		add("compile", n+" | where a > 1 | project a | count", -1)
+		add("compile", "T | where a > 1 | join kind=leftouter ("+n+" | where b > 0) on k | project a | count", -1)
+		add("compile", "T | where a | as "+n+" | project b | where b | count", -1)
+	}
+	for _, opt := range []int{-1, 5} {
+		add("compile", "let window_us = 1000; let span = window_s * 2; T | where a > span", opt)
+		add("compile", "let alpha1 = 1; let alpha2 = 2; let alpha3 = 3; let beta = alpha + alphaX; T | take beta", opt)
+		add("compile", "let window_us = 1; T | where f(window_s) > window_us | project window_ns", opt)
 	}
 	progs := gen.Programs()
 	single := len(gen.OperatorVariants())
